@@ -20,7 +20,7 @@ ASSUMPTIONS = [
 COMMENT_CLASSES = ["eol_c", "own_c", "blank_own_c", "nosp_c", "two_c", "uni_c", "shebang_c",
                    "own_c_ind", "inl_blk", "own_blk", "ml_blk", "doc", "inl_blk_tight", "eol_blk",
                    "lead_blk", "eol_c_blank", "own_c_blank", "eol_c_crlf", "eol_c_crlf_blank", "blk_edge",
-                   "ctl_c", "ctl_blk", "two_blk", "blk_eol_c", "own_blk_eol_c"]
+                   "ctl_c", "ctl_blk", "two_blk", "blk_eol_c", "own_blk_eol_c", "three_blk", "two_blk_eol_c"]
 
 
 def judge(ob, rin, rout):
